@@ -9,11 +9,13 @@ package cmd
 // counter of component/outbound/dialer, and prints one observation per call.
 
 import (
+	"context"
 	"encoding/json"
 	"fmt"
 	"io"
 	"os"
 	"sync"
+	"sync/atomic"
 	"syscall"
 	"testing"
 	"time"
@@ -35,6 +37,39 @@ type c20Op struct {
 	B    bool   `json:"b,omitempty"`
 	Code string `json:"code,omitempty"`
 	D    int    `json:"d,omitempty"`
+	// retirement circumstances (RF) and probes (WD, RB); times in ns unless named _ms
+	Abort     bool  `json:"abort,omitempty"`
+	Overlap   bool  `json:"overlap,omitempty"`
+	ElapsedNs int64 `json:"elapsed_ns,omitempty"`
+	Zero      bool  `json:"zero,omitempty"`
+	Sessions  int   `json:"sessions,omitempty"`
+	WaitMs    int   `json:"wait_ms,omitempty"`
+	MaxWaitNs int64 `json:"maxw_ns,omitempty"`
+	IdleMs    int   `json:"idle_ms,omitempty"`   // -1: never
+	CancelMs  int   `json:"cancel_ms,omitempty"` // -1: never
+	WatchMs   int   `json:"watch_ms,omitempty"`
+	BudgetNs  int64 `json:"budget_ns,omitempty"`
+}
+
+// c20Plane is the old generation as the retirement code sees it (retirementDrainPlane)
+type c20Plane struct {
+	active  atomic.Int32
+	idleCh  chan struct{}
+	once    sync.Once
+	aborted atomic.Bool
+}
+
+func newC20Plane(n int) *c20Plane {
+	p := &c20Plane{idleCh: make(chan struct{})}
+	p.active.Store(int32(n))
+	return p
+}
+func (p *c20Plane) ActiveSessionCount() int      { return int(p.active.Load()) }
+func (p *c20Plane) DrainIdleCh() <-chan struct{} { return p.idleCh }
+func (p *c20Plane) AbortConnections() error      { p.aborted.Store(true); return nil }
+func (p *c20Plane) drain() {
+	p.active.Store(0)
+	p.once.Do(func() { close(p.idleCh) })
 }
 
 type c20Case struct {
@@ -51,7 +86,7 @@ type c20Obs struct {
 	Code       string `json:"code"`
 	Msg        string `json:"msg"`
 	Suppressed bool   `json:"suppressed"`
-	Ret        int    `json:"ret"`
+	Ret        int64  `json:"ret"`
 	Note       string `json:"note,omitempty"`
 }
 
@@ -181,9 +216,12 @@ func c20Run(cs c20Case) (res c20Result) {
 
 	type retirement struct {
 		gate    chan struct{}
+		opened  bool
 		done    <-chan struct{}
 		closed  bool
 		waiters int
+		plane   *c20Plane
+		cancel  context.CancelFunc
 	}
 	var rets []*retirement
 	defer func() {
@@ -193,7 +231,12 @@ func c20Run(cs c20Case) (res c20Result) {
 		for _, r := range rets {
 			if !r.closed {
 				before := func() int { prog.mu.Lock(); defer prog.mu.Unlock(); return prog.clears }()
-				close(r.gate)
+				if !r.opened {
+					close(r.gate)
+				}
+				if r.cancel != nil {
+					r.cancel()
+				}
 				select {
 				case <-r.done:
 				case <-time.After(2 * time.Second):
@@ -211,7 +254,7 @@ func c20Run(cs c20Case) (res c20Result) {
 	}
 	lastUntil := int64(0)
 	for _, op := range cs.Ops {
-		ret := 0
+		ret := int64(0)
 		note := ""
 		switch op.Op {
 		case "Q":
@@ -292,24 +335,104 @@ func c20Run(cs c20Case) (res c20Result) {
 			m.setPendingReloadMetadata(time.Now(), monotonicNowNano())
 			m.startControlPlaneRetirement(log, &control.ControlPlane{}, nil, func() { <-gate }, false, false)
 			rets = append(rets, &retirement{gate: gate, done: pendingDone()})
+			_ = gate
 		case "X":
 			m.clearPendingRetirement()
+		case "RF":
+			// startControlPlaneRetirement with a plane whose sessions the harness controls (the real method
+			// wants a concrete *control.ControlPlane): same statements, real budget computation, real
+			// retireControlPlaneConnections in the goroutine
+			m.lastRetirementMu.Lock()
+			if m.lastRetirementCancel != nil {
+				m.lastRetirementCancel()
+			}
+			retireCtx, retireCancel := context.WithCancel(context.Background())
+			m.lastRetirementCancel = retireCancel
+			m.lastRetirementMu.Unlock()
+			startedAt := time.Time{}
+			if !op.Zero {
+				startedAt = time.Now().Add(-time.Duration(op.ElapsedNs))
+			}
+			m.setPendingReloadMetadata(startedAt, monotonicNowNano())
+			done := make(chan struct{})
+			m.mu.Lock()
+			m.pendingRetirementDone = done
+			drainBudget := remainingReloadRetirementBudget(m.pendingReloadRequestedAt, reloadTotalSwitchBudget)
+			m.mu.Unlock()
+			gate := make(chan struct{})
+			plane := newC20Plane(op.Sessions)
+			abort, overlap := op.Abort, op.Overlap
+			go func(done chan struct{}) {
+				defer close(done)
+				<-gate
+				retireControlPlaneConnections(log, retireCtx, plane, abort, overlap, drainBudget)
+			}(done)
+			rets = append(rets, &retirement{gate: gate, done: done, plane: plane, cancel: retireCancel})
+		case "SD":
+			if op.D < len(rets) && rets[op.D].plane != nil {
+				rets[op.D].plane.drain()
+			}
 		case "D":
 			if op.D < len(rets) && !rets[op.D].closed {
 				r := rets[op.D]
 				before := func() int { prog.mu.Lock(); defer prog.mu.Unlock(); return prog.clears }()
-				close(r.gate)
+				if !r.opened {
+					close(r.gate)
+					r.opened = true
+				}
+				wait := time.Duration(op.WaitMs) * time.Millisecond
+				if r.plane == nil && wait < 3*time.Second {
+					wait = 3 * time.Second // real startControlPlaneRetirement on a zero control plane: nothing to wait for
+				}
 				select {
 				case <-r.done:
-				case <-time.After(3 * time.Second):
-					note = "retirement-stuck"
+					r.closed = true
+				case <-time.After(wait + 20*time.Millisecond):
+					if r.plane == nil {
+						note = "retirement-stuck"
+					}
 				}
-				r.closed = true
-				if r.waiters > 0 && !prog.waitClears(before+r.waiters, 2*time.Second) {
-					note = "release-goroutine-stuck"
+				if r.closed {
+					if r.waiters > 0 && !prog.waitClears(before+r.waiters, 2*time.Second) {
+						note = "release-goroutine-stuck"
+					}
+					r.waiters = 0
 				}
-				r.waiters = 0
 			}
+		case "WD":
+			// the real waitForControlPlaneDrain against sessions that drain after idle_ms (or never), a context
+			// cancelled after cancel_ms (or never), watched for watch_ms
+			plane := newC20Plane(op.Sessions)
+			ctx, cancel := context.WithCancel(context.Background())
+			resCh := make(chan controlPlaneDrainWaitResult, 1)
+			var timers []*time.Timer
+			if op.IdleMs >= 0 {
+				timers = append(timers, time.AfterFunc(time.Duration(op.IdleMs)*time.Millisecond, plane.drain))
+			}
+			if op.CancelMs >= 0 {
+				timers = append(timers, time.AfterFunc(time.Duration(op.CancelMs)*time.Millisecond, cancel))
+			}
+			go func() {
+				resCh <- waitForControlPlaneDrain(log, ctx, plane, time.Duration(op.MaxWaitNs), 0)
+			}()
+			select {
+			case r := <-resCh:
+				ret = int64(r)
+			case <-time.After(time.Duration(op.WatchMs) * time.Millisecond):
+				ret = 3
+				cancel()
+				<-resCh
+			}
+			for _, t := range timers {
+				t.Stop()
+			}
+			cancel()
+		case "RB":
+			startedAt := time.Time{}
+			if !op.Zero {
+				startedAt = time.Now().Add(-time.Duration(op.ElapsedNs))
+			}
+			ret = int64(remainingReloadRetirementBudget(startedAt, time.Duration(op.BudgetNs)))
 		case "S":
 			// a reload signal arrives while the main loop is inside waitReloadReadyOrSignal
 			sigs := make(chan os.Signal, 1)
